@@ -320,10 +320,10 @@ class OverlayStorage(Storage):
         self.b = b
 
     def create_index(self, *args, **kwargs):
-        self.b.create_index(*args, **kwargs)
+        return self.b.create_index(*args, **kwargs)
 
     def open_index(self, *args, **kwargs):
-        self.a.open_index(*args, **kwargs)
+        return self.a.open_index(*args, **kwargs)
 
     def create_file(self, *args, **kwargs):
         return self.b.create_file(*args, **kwargs)
